@@ -18,7 +18,11 @@ Inductive skel :=
 | KParafacN (N sweeps fmlen : nat) (rm : option nat) (modes : list nat)
 | KHalsN (N sweeps sclen fmlen : nat) (fixed modes : list nat)
 | KTuckerN (N sweeps : nat) (modes : list nat)
-| KInitCpN (N : nat) | KInitTuckerN (N : nat).
+| KInitCpN (N : nat) | KInitTuckerN (N : nat)
+| KTuckerModeDotCopy | KTuckerModeDotVecInplace | KTuckerModeDotMatInplace | KIndexUpdate
+| KCpClassFit (N sweeps fmlen : nat) (rm : option nat) (modes : list nat)
+| KHalsClassFit (N sweeps sclen fmlen : nat) (fixed modes : list nat)
+| KTuckerClassFit (N sweeps : nat) (modes : list nat).
 
 Definition skeleton (k : skel) : cmd :=
   match k with
@@ -45,6 +49,13 @@ Definition skeleton (k : skel) : cmd :=
   | KTuckerN N sweeps modes => sk_tucker_gen N sweeps modes
   | KInitCpN N => sk_initialize_cp_gen N
   | KInitTuckerN N => sk_initialize_tucker_gen N
+  | KTuckerModeDotCopy => sk_tucker_mode_dot_copy
+  | KTuckerModeDotVecInplace => sk_tucker_mode_dot_vec_nocopy
+  | KTuckerModeDotMatInplace => sk_tucker_mode_dot_matrix_nocopy
+  | KIndexUpdate => sk_index_update
+  | KCpClassFit N sweeps fmlen rm modes => sk_estimator_fit 3 (sk_parafac_gen N sweeps fmlen rm modes) 25
+  | KHalsClassFit N sweeps sclen fmlen fixed modes => sk_estimator_fit 3 (sk_nn_parafac_hals_gen N sweeps sclen fmlen fixed modes) 25
+  | KTuckerClassFit N sweeps modes => sk_estimator_fit 2 (sk_tucker_gen N sweeps modes) 25
   end.
 
 (* region reachable from the in-place arguments: Model.Effects.inplace_region, accepted only together with its closure
@@ -52,21 +63,50 @@ Definition skeleton (k : skel) : cmd :=
 Definition region_ok (h : heap) (args : list ref) (flags : list bool) (observed : list nat) : bool :=
   region_closed h (inplace_region h args flags) && forallb (fun o => memb o (inplace_region h args flags)) observed.
 
-Definition case := (nat * option skel * list bool * list ref * heap * list nat)%type.
+(* interrupted calls ("returns (or raises)"): the harness makes the call raise at its k-th internal function call; the
+   prediction is then the footprint of SOME interruption point of the skeleton, `run sk n` for an n <= steps sk
+   (Props C15_interrupt_enumeration_complete: larger n add nothing) *)
+Fixpoint steps (c : cmd) : nat :=
+  match c with
+  | Seq a b => steps a + steps b
+  | Repeat k a => k * steps a
+  | Call _ b _ _ => steps b
+  | _ => 1
+  end.
+Definition footprint_run (c : cmd) (n : nat) (args : list ref) (h : heap) : list nat :=
+  let h' := snd (fst (run c n (env0 args, h))) in
+  filter (fun o => match nth_error h o, nth_error h' o with
+                   | Some a, Some b => negb (obj_eqb a b)
+                   | _, _ => true end) (List.seq 0 (length h)).
+Definition interrupted_footprints (c : cmd) (args : list ref) (h : heap) : list (list nat) :=
+  map (fun n => footprint_run c n args h) (List.seq 0 (S (steps c))).
+
+(* compact literals (the cost of a shard is the elaboration of its literals, ~10 us per term node: unary nat numerals and
+   explicit buffer contents dominated): identifiers, object numbers and offsets travel as binary Z numerals, buffers as
+   their length only (contents are synthetic anyway: only identity and offsets matter) *)
+Definition nl (l : list Z) : list nat := map Z.to_nat l.
+Definition synth (n : nat) : list Z := map (fun i => (Z.of_nat (i mod 7) + 3)%Z) (List.seq 0 n).
+Definition SB (n : Z) : obj := OBuf (synth (Z.to_nat n)).
+Definition R (o : Z) (offs : list Z) : ref := RObj (Z.to_nat o) (nl offs).
+
+(* (id, skeleton kind, in-place flags, argument references, heap, observed changed objects, call was interrupted / raised) *)
+Definition case := (Z * option skel * list bool * list ref * heap * list Z * bool)%type.
 
 Definition agree (c : case) : bool :=
-  let '(_, k, flags, args, h, observed) := c in
+  let '(_, k, flags, args, h, observedZ, interrupted) := c in
+  let observed := nl observedZ in
   match k with
   | None => region_ok h args flags observed
   | Some s =>
       (* a modelled entry point: the skeleton's footprint is the prediction.  When the skeleton is safe for these
          flags the prediction lies inside the in-place region by C15_frame_inplace; a skeleton that models a
          known defect of the code as it is (not safe) predicts the writes outside it. *)
-      nat_list_eqb (footprint (skeleton s) args h) observed &&
+      (if interrupted then existsb (fun f => nat_list_eqb f observed) (interrupted_footprints (skeleton s) args h)
+       else nat_list_eqb (footprint (skeleton s) args h) observed) &&
       (negb (safe_with flags (skeleton s)) || region_ok h args flags observed)
   end.
-Definition ident (c : case) : nat := let '(i, _, _, _, _, _) := c in i.
-Definition failing := failing_ids agree ident.
+Definition ident (c : case) : Z := let '(i, _, _, _, _, _, _) := c in i.
+Definition failing (cs : list case) : list Z := map ident (filter (fun c => negb (agree c)) cs).
 
 (* STATIC correspondence (corr:C15-static): the harness extracts an aliasing skeleton (a pcmd) from the SOURCE of every
    anchored function (Python ast: which statements assign into / call in-place methods on names, how names are bound:
